@@ -8,7 +8,7 @@ Require Import Cirbo.Model.Base Cirbo.Model.Gate Cirbo.Model.Den Cirbo.Model.Cir
 Require Import Cirbo.Proofs.DictFacts Cirbo.Proofs.WFBase Cirbo.Proofs.WFSimple Cirbo.Proofs.WFEmplace
         Cirbo.Proofs.WFRemove Cirbo.Proofs.WFRename Cirbo.Proofs.WFRename2 Cirbo.Proofs.WFReplaceSub1
         Cirbo.Proofs.WFReplaceSub Cirbo.Proofs.TopSortWF Cirbo.Proofs.CycleCheck
-        Cirbo.Proofs.SemExt Cirbo.Proofs.SemRename Cirbo.Proofs.SemReplaceSub.
+        Cirbo.Proofs.SemExt Cirbo.Proofs.SemRenameGate Cirbo.Proofs.SemReplaceSub.
 Require Import Coq.Sorting.Permutation.
 
 Definition rs_error (e : err) : bool :=
